@@ -201,6 +201,12 @@ class MinLen:
 
 
 @dataclass(eq=False)
+class StrBuf:
+    """io.StringIO used as an accumulator."""
+    parts: list
+
+
+@dataclass(eq=False)
 class ExcVal:
     name: str
     args: list
@@ -279,6 +285,10 @@ class Interp:
             return ExtVal(modname, attr)
         if m2 is not None and node is None:
             return ModuleVal(m2.dotted)
+        if name == "__name__":
+            return Tmpl.lit(mod.dotted)
+        if name == "__file__":
+            return Tmpl.lit(str(mod.path))
         if name in BUILTINS:
             return Builtin(name)
         if name in EXC_BUILTINS:
@@ -753,7 +763,7 @@ class Interp:
                 return Tmpl.lit(o.member)
             if attr == "value":
                 return self.enum_value(o, site)
-        if isinstance(o, (Tmpl, AList, ASet, ADict, Sym)):
+        if isinstance(o, (Tmpl, AList, ASet, ADict, Sym, StrBuf)):
             return BoundMethod(o, attr)
         if isinstance(o, ExtVal):
             return ExtVal(o.module, (o.attr + "." if o.attr else "") + attr)
@@ -1076,6 +1086,10 @@ class Interp:
     def identical(self, a, b):
         if a is None or b is None or isinstance(a, bool) or isinstance(b, bool):
             return a is b
+        if isinstance(a, Builtin) and isinstance(b, Builtin):
+            return a.name == b.name
+        if isinstance(a, ClassVal) and isinstance(b, ClassVal):
+            return a.name == b.name
         if isinstance(a, EnumVal) and isinstance(b, EnumVal):
             return a == b
         if isinstance(a, Sym) and isinstance(b, Sym):
@@ -1121,6 +1135,8 @@ class Interp:
                 self.equal(x, y, site) for x, y in zip(a.items, b.items))
         if type(a) is not type(b):
             return False
+        if isinstance(a, (Builtin, ClassVal)):
+            return a.name == b.name
         if isinstance(a, Obj):
             return a is b
         raise Unsupported(f"equality of {type(a).__name__} at {site}")
@@ -1686,6 +1702,23 @@ class Interp:
 
     def method(self, recv, name, args, kwargs, site):
         args = [x.value if isinstance(x, _Tagged) else x for x in args]
+        if isinstance(recv, StrBuf):
+            if name == "write":
+                v = args[0]
+                recv.parts.append(v if isinstance(v, Tmpl) else self.render(v, "str", site))
+                return None
+            if name == "writelines":
+                for v in self.iterate(args[0], site):
+                    recv.parts.append(v if isinstance(v, Tmpl) else self.render(v, "str", site))
+                return None
+            if name == "getvalue":
+                out = Tmpl()
+                for p_ in recv.parts:
+                    out = out + p_
+                return out
+            if name in ("close", "flush"):
+                return None
+            raise Unsupported(f"StringIO.{name} at {site}")
         if isinstance(recv, Tmpl):
             if name == "join":
                 src = args[0]
@@ -1706,8 +1739,64 @@ class Interp:
                     else:
                         raise RaiseSig("TypeError", site, f"join() of a non-string item {x!r}")
                 return Tmpl(out.parts, out.nondet + tuple(nd))
-            if name == "format":
-                raise Unsupported(f"str.format at {site}")
+            if name == "format" and recv.is_literal():
+                import string as _string
+                out = Tmpl()
+                auto = 0
+                for lit, field, spec, conv in _string.Formatter().parse(recv.text()):
+                    out = out + Tmpl.lit(lit)
+                    if field is None:
+                        continue
+                    if spec:
+                        raise Unsupported(f"str.format with a format spec at {site}")
+                    if field == "":
+                        val = args[auto]
+                        auto += 1
+                    elif field.isdigit():
+                        val = args[int(field)]
+                    elif field in kwargs:
+                        val = kwargs[field]
+                    else:
+                        raise Unsupported(f"str.format field {field!r} at {site}")
+                    out = out + self.render(val, {None: "str", "s": "str", "r": "repr", "a": "ascii"}[conv], site)
+                return out
+            if name in ("splitlines",) or (name == "split" and len(args) == 1 and isinstance(args[0], Tmpl) and args[0].is_literal() and args[0].text() == "\n"):
+                keep = name == "splitlines" and bool(args) and args[0] is True
+                lines, cur = [], []
+                for p_ in recv.parts:
+                    if isinstance(p_, str):
+                        segs = p_.split("\n")
+                        for i_, seg in enumerate(segs):
+                            if i_:
+                                if keep:
+                                    cur.append("\n")
+                                lines.append(Tmpl(cur, recv.nondet))
+                                cur = []
+                            if seg:
+                                cur.append(seg)
+                    else:
+                        cur.append(p_)
+                if cur or name == "split":
+                    lines.append(Tmpl(cur, recv.nondet))
+                return AList(lines)
+            if name in ("strip", "lstrip", "rstrip") and not recv.is_literal() and all(isinstance(a, Tmpl) and a.is_literal() for a in args):
+                chars = args[0].text() if args else None
+                parts = list(recv.parts)
+                if name in ("strip", "lstrip") and parts and isinstance(parts[0], str):
+                    parts[0] = parts[0].lstrip(chars)
+                if name in ("strip", "rstrip") and parts and isinstance(parts[-1], str):
+                    parts[-1] = parts[-1].rstrip(chars)
+                edge_holes = (name in ("strip", "lstrip") and parts and isinstance(parts[0], Hole) and parts[0].sym.kind != "ident") or \
+                             (name in ("strip", "rstrip") and parts and isinstance(parts[-1], Hole) and parts[-1].sym.kind != "ident")
+                if edge_holes:
+                    raise Unsupported(f"str.{name} cuts into a rendered literal at {site}")
+                return Tmpl(parts, recv.nondet)
+            if name in ("startswith", "endswith") and not recv.is_literal() and isinstance(args[0], Tmpl) and args[0].is_literal():
+                edge = recv.parts[0] if name == "startswith" else recv.parts[-1]
+                t_ = args[0].text()
+                if isinstance(edge, str) and len(edge) >= len(t_):
+                    return edge.startswith(t_) if name == "startswith" else edge.endswith(t_)
+                return self.choose(f"{name}({t_!r}) on generated text at {site}")
             if recv.is_literal():
                 s = recv.text()
                 if name in ("strip", "lstrip", "rstrip", "lower", "upper", "title") and all(
@@ -1757,6 +1846,14 @@ class Interp:
                 return None
             raise Unsupported(f"set.{name} at {site}")
         if isinstance(recv, AList):
+            if name == "sort" and recv.pytype == "list":
+                res = self.builtin("sorted", [recv], kwargs, site)
+                recv.items[:] = res.items
+                recv.nondet = tuple(recv.nondet) + tuple(res.nondet)
+                return None
+            if name == "reverse" and recv.pytype == "list":
+                recv.items.reverse()
+                return None
             if name == "append" and recv.pytype == "list":
                 recv.items.append(args[0])
                 return None
@@ -1808,6 +1905,23 @@ class Interp:
 
     def external(self, f: "ExtVal", args, kwargs, site):
         q = f"{f.module}.{f.attr}" if f.attr else f.module
+        root = q.split(".")[0]
+        if root in ("logging", "warnings") or ".Logger()" in q:
+            if q in ("logging.getLogger", "logging.Logger", "logging.LoggerAdapter"):
+                return ExtVal("logging", "Logger()")
+            if q.endswith(".getChild"):
+                return ExtVal("logging", "Logger()")
+            if q.endswith(".isEnabledFor"):
+                return False
+            return None            # emitting a log record / warning does not affect the compiled text
+        if q in ("typing.cast",) and len(args) == 2:
+            return args[1]
+        if q in ("copy.copy", "copy.deepcopy") and args:
+            return args[0]
+        if q in ("io.StringIO", "StringIO"):
+            return StrBuf([args[0]] if args and isinstance(args[0], Tmpl) else [])
+        if q in ("operator.itemgetter", "operator.attrgetter"):
+            raise Unsupported(f"{q} at {site}")
         if q == "re.compile":
             return ExtVal("re", "Pattern()")
         if q in ("re.Pattern().match", "re.Pattern().fullmatch", "re.Pattern().search", "re.match", "re.fullmatch", "re.search"):
